@@ -24,6 +24,7 @@ type Violation struct {
 
 // Run is the per-process collector. All methods are safe for concurrent use.
 type Run struct {
+	aborted  atomic.Bool
 	Property string
 	Level    string
 	Tier     string
@@ -47,6 +48,16 @@ type Run struct {
 }
 
 // Start reads VERIF_SEED / VERIF_TIER / VERIF_UNIT and returns a collector.
+// current is the run started by this process (one per harness binary).
+var current *Run
+
+// Current returns the run started by Start (nil before).
+func Current() *Run { return current }
+
+// Abort stops Units from dispatching further units (those already running finish). Used when the system
+// under test is in a state where every further unit would only repeat a long wait.
+func (r *Run) Abort() { r.aborted.Store(true) }
+
 func Start(property, level string) *Run {
 	r := &Run{Property: property, Level: level, Tier: "quick", Seed: 1, Only: -1, start: time.Now(),
 		counts: map[string]int64{}, sets: map[string]map[string]struct{}{}, viol: map[string]*Violation{},
@@ -64,6 +75,7 @@ func Start(property, level string) *Run {
 			r.Only = v
 		}
 	}
+	current = r
 	return r
 }
 
